@@ -179,6 +179,9 @@ struct Sim {
     sent: usize,
     user: String,
     pwd: String,
+    schedule: Vec<String>,
+    sched_pos: usize,
+    drift: usize,
 }
 
 fn poll_once(f: &mut Pin<Box<dyn Future<Output = ()>>>) {
@@ -357,6 +360,27 @@ impl Sim {
             }
         }
         v
+    }
+
+    /// Maps a model step ("repl:n1", "deliver:n1>n2", "reply:n1>n2") to an enabled simulator step.
+    fn resolve(&self, want: &str, enabled: &Vec<String>) -> Option<String> {
+        let (kind, arg) = want.split_once(':')?;
+        if kind == "repl" || kind == "sup" {
+            return enabled.iter().find(|e| *e == want).cloned();
+        }
+        let (x, y) = arg.split_once('>')?;
+        for e in enabled.iter() {
+            if let Some((k, id)) = e.split_once(':') {
+                if k == kind {
+                    if let Ok(i) = id.parse::<usize>() {
+                        if self.links[i].from == x && self.links[i].to == y {
+                            return Some(e.clone());
+                        }
+                    }
+                }
+            }
+        }
+        None
     }
 
     fn suspended(&self) -> Vec<usize> {
@@ -724,7 +748,8 @@ pub fn run_case(case: &J, workdir: &str, out: &mut dyn Write, n: usize) -> Resul
     }
     NEW_LINKS.lock().unwrap().clear();
     let mut sim = Sim { nodes: vec![], links: vec![], tasks: BTreeMap::new(), next_task: 1, out: vec![], run: id.clone(),
-                        sent: 0, user: "admin".to_string(), pwd: "adminpwd".to_string() };
+                        sent: 0, user: "admin".to_string(), pwd: "adminpwd".to_string(),
+                        schedule: vec![], sched_pos: 0, drift: 0 };
     let empty = vec![];
     let names: Vec<String> = case["nodes"].as_array().unwrap_or(&empty).iter().map(|x| x.as_str().unwrap().to_string()).collect();
     let base = format!("{}/cl-{}-{}", workdir, std::process::id(), n);
@@ -782,7 +807,26 @@ pub fn run_case(case: &J, workdir: &str, out: &mut dyn Write, n: usize) -> Resul
             }
             let nc = if *next_client < nops { Some(*next_client) } else { None };
             let en = sim.enabled(nc, interleave);
-            let pick = if !en.is_empty() {
+            // a TLC-generated schedule names steps by node / link end points
+            let mut from_schedule: Option<String> = None;
+            while !en.is_empty() && from_schedule.is_none() && sim.sched_pos < sim.schedule.len() {
+                let want = sim.schedule[sim.sched_pos].clone();
+                if want.starts_with("client:") {
+                    // the model issues the next command only at quiescence: the simulator still has
+                    // something to deliver that the model did not expect
+                    sim.drift += 1;
+                    break;
+                }
+                sim.sched_pos += 1;
+                let resolved = sim.resolve(&want, &en);
+                match resolved {
+                    Some(s) => from_schedule = Some(s),
+                    None => sim.drift += 1,
+                }
+            }
+            let pick = if let Some(s) = from_schedule {
+                s
+            } else if !en.is_empty() {
                 if policy == "random" { en[(rng.next() % en.len() as u64) as usize].clone() } else { en[0].clone() }
             } else {
                 // nothing can be delivered: timers may fire
@@ -833,6 +877,12 @@ pub fn run_case(case: &J, workdir: &str, out: &mut dyn Write, n: usize) -> Resul
     sim.emit(json!({"ev":"formed","quiet":quiet,"state":st,"steps":steps}));
     // ---- the explored part
     next_client = 0;
+    let schedule: Vec<String> = case["schedule"].as_array().unwrap_or(&empty).iter().map(|s| s.as_str().unwrap_or("").to_string()).collect();
+    let schedule_from = case["schedule_from"].as_u64().unwrap_or(0) as usize;
+    if schedule_from == 0 {
+        sim.schedule = schedule.clone();
+    }
+    sim.sched_pos = 0;
     let interleave = case["interleave"].as_bool().unwrap_or(true);
     let mut all_quiet = true;
     let seq_prefix = if interleave { case["sequential_prefix"].as_u64().unwrap_or(0) as usize } else { ops.len() };
@@ -840,7 +890,14 @@ pub fn run_case(case: &J, workdir: &str, out: &mut dyn Write, n: usize) -> Resul
         while next_client < ops.len().min(seq_prefix) {
             let i = next_client;
             next_client += 1;
+            if i == schedule_from && schedule_from > 0 {
+                sim.schedule = schedule.clone();
+                sim.sched_pos = 0;
+            }
             let before = sim.sent;
+            if sim.sched_pos < sim.schedule.len() && sim.schedule[sim.sched_pos].starts_with("client:") {
+                sim.sched_pos += 1;
+            }
             sim.step(&format!("client:{}", i), case)?;
             steps += 1;
             let mut nc = ops.len();
@@ -860,7 +917,8 @@ pub fn run_case(case: &J, workdir: &str, out: &mut dyn Write, n: usize) -> Resul
     }
     let st = sim.snapshot_state();
     let total = sim.sent - sent0;
-    sim.emit(json!({"ev":"end","quiet":all_quiet,"messages":total,"steps":steps,"state":st}));
+    let (drift, used) = (sim.drift, sim.sched_pos);
+    sim.emit(json!({"ev":"end","quiet":all_quiet,"messages":total,"steps":steps,"state":st,"drift":drift,"schedule_used":used}));
     for ev in sim.out.iter() {
         writeln!(out, "{}", ev).map_err(|e| e.to_string())?;
     }
